@@ -179,7 +179,8 @@ def _apply_seq(ctx, items, diff, path, depth, kind):
                 ctx.bad("addrange-out-of-bounds", p)
                 continue
             if key in add_keys:
-                ctx.bad("two-addranges-on-one-key", p)
+                # not forbidden by the property as stated (ordered, no overlap, in bounds): observation only
+                ctx.ops[(kind, "second-addrange-on-one-key")] = ctx.ops.get((kind, "second-addrange-on-one-key"), 0) + 1
             add_keys.add(key)
             if key < pos:
                 # after a removerange/patch that already consumed A[key]
